@@ -256,8 +256,8 @@ def float_repr(text):
             raise Unsupported("repr of a float written with underscores, non-ASCII digits, inf or nan")
         (fp if seen_dot else ip).append(c)
     if exp:
-        if abs(exp) > 15:
-            raise Unsupported("repr of a float with an exponent beyond +-15")
+        if abs(exp) > 30:
+            raise Unsupported("repr of a float with an exponent beyond +-30")
         digits, pos = ip + fp, len(ip) + exp
         if pos <= 0:
             ip, fp = [], ["0"] * (-pos) + digits
@@ -275,6 +275,18 @@ def float_repr(text):
         fp = ["0"]
     int_zero = len(ip) == 1 and ctx.decide_b(ch_eq(ip[0], "0"))
     frac_zero = len(fp) == 1 and ctx.decide_b(ch_eq(fp[0], "0"))
+    sign = ["-"] if neg else []
+
+    def scientific(digits, e10):
+        # repr() switches to d.ddde+XX outside 1e-4 <= |x| < 1e16 (exponent of at least two digits)
+        return sign + [digits[0]] + ((["."] + digits[1:]) if len(digits) > 1 else []) + list("e%s%02d" % ("-" if e10 < 0 else "+", abs(e10)))
+    if not int_zero and len(ip) >= 17:
+        digits = ip + ([] if frac_zero else fp)
+        while len(digits) > 1 and ctx.decide_b(ch_eq(digits[-1], "0")):
+            digits.pop()
+        if len(digits) > 15:
+            raise Unsupported("repr of a float with more than 15 significant digits")
+        return scientific(digits, len(ip) - 1)
     if len(ip) + len(fp) > 15 or len(ip) > 15:
         raise Unsupported("repr of a float with more than 15 significant digits")
     if int_zero and not frac_zero:
@@ -282,8 +294,8 @@ def float_repr(text):
         while lead < len(fp) and ctx.decide_b(ch_eq(fp[lead], "0")):
             lead += 1
         if lead >= 4:
-            raise Unsupported("repr of a float below 1e-4 (exponent notation)")
-    return (["-"] if neg else []) + ip + ["."] + fp
+            return scientific(fp[lead:], -(lead + 1))
+    return sign + ip + ["."] + fp
 
 
 def int_digits(v, width=0):
@@ -437,28 +449,33 @@ def sym_isinstance(x, t):
         else:
             flat.append(tt)
     ts = tuple(_norm_cls(tt) for tt in flat)
+    # a proxy is an instance of whatever the class it stands for is a subclass of (abstract base classes such as
+    # numbers.Number or collections.abc.Hashable included)
+    real = None
     if _isinstance(x, SymStr):
-        return any(tt is builtins.str or (_isinstance(tt, type) and _isinstance(x, tt)) for tt in ts)
-    if _isinstance(x, SymBool):
-        return any(tt in (builtins.bool, builtins.int) for tt in ts)
-    if _isinstance(x, SymInt):
-        return any(tt is builtins.int for tt in ts)
-    if _isinstance(x, SymFloat):
-        return any(tt is builtins.float for tt in ts)
-    if _isinstance(x, SymDatetime):
-        return any(tt in (_dt.datetime, _dt.date) for tt in ts)
-    if _isinstance(x, SymDate):
-        return any(tt is _dt.date for tt in ts)
-    if _isinstance(x, SymTime):
-        return any(tt is _dt.time for tt in ts)
-    if _isinstance(x, SymTimedelta):
-        return any(tt is _dt.timedelta for tt in ts)
-    if _isinstance(x, SymTz):
-        return any(tt in (_dt.timezone, _dt.tzinfo) for tt in ts)
-    if _isinstance(x, SymSet):
-        if x.frozen:
-            return any(tt is builtins.frozenset for tt in ts)
-        return any(tt is builtins.set for tt in ts)
+        if any(_isinstance(tt, type) and _isinstance(x, tt) for tt in ts):      # SymToken is-a Token
+            return True
+        real = builtins.str
+    elif _isinstance(x, SymBool):
+        real = builtins.bool
+    elif _isinstance(x, SymInt):
+        real = builtins.int
+    elif _isinstance(x, SymFloat):
+        real = builtins.float
+    elif _isinstance(x, SymDatetime):
+        real = _dt.datetime
+    elif _isinstance(x, SymDate):
+        real = _dt.date
+    elif _isinstance(x, SymTime):
+        real = _dt.time
+    elif _isinstance(x, SymTimedelta):
+        real = _dt.timedelta
+    elif _isinstance(x, SymTz):
+        real = _dt.timezone
+    elif _isinstance(x, SymSet):
+        real = builtins.frozenset if x.frozen else builtins.set
+    if real is not None:
+        return any(_isinstance(tt, type) and issubclass(real, tt) for tt in ts)
     return _isinstance(x, tuple(tt for tt in ts if _isinstance(tt, type)))
 
 
